@@ -719,6 +719,7 @@ func scenarioOrder(seed int64, idle, frame time.Duration) *verdict {
 	w.all = append(w.all, slow)
 	slow.send(&hagallpb.ParticipantJoinRequest{Type: hagallpb.MsgType_MSG_TYPE_PARTICIPANT_JOIN_REQUEST, Timestamp: now(), RequestId: rid(), SessionId: w.sidA})
 	time.Sleep(50 * time.Millisecond)
+	movable, _ := w.w2.addEntity()
 	const total = 5000
 	body := bytes.Repeat([]byte{9}, 4000)
 	sent := make(chan struct{})
@@ -735,11 +736,12 @@ func scenarioOrder(seed int64, idle, frame time.Duration) *verdict {
 	// behind the backlog, another member creates an entity and moves it: the slow member must be told, once it catches up
 	moved := make(chan uint32, 1)
 	go func() {
+		// the pose update first: it is relayed while the slow member's queue is full
+		w.w2.send(&hagallpb.EntityUpdatePose{Type: hagallpb.MsgType_MSG_TYPE_ENTITY_UPDATE_POSE, Timestamp: now(), EntityId: movable, Pose: &hagallpb.Pose{Px: 4242}})
 		eid, _ := w.w2.addEntity()
-		w.w2.send(&hagallpb.EntityUpdatePose{Type: hagallpb.MsgType_MSG_TYPE_ENTITY_UPDATE_POSE, Timestamp: now(), EntityId: eid, Pose: &hagallpb.Pose{Px: 4242}})
 		moved <- eid
 	}()
-	time.Sleep(100 * time.Millisecond)
+	time.Sleep(300 * time.Millisecond)
 	go slow.readLoop()
 	select {
 	case <-sent:
@@ -784,9 +786,9 @@ func scenarioOrder(seed int64, idle, frame time.Duration) *verdict {
 				} else if _, ok := slow.waitFor(hagallpb.MsgType_MSG_TYPE_ENTITY_UPDATE_POSE_BROADCAST, patience, func(m hwebsocket.Msg) bool {
 					var b hagallpb.EntityUpdatePoseBroadcast
 					m.DataTo(&b)
-					return b.EntityId == eid && b.Pose != nil && b.Pose.Px == 4242
+					return b.EntityId == movable && b.Pose != nil && b.Pose.Px == 4242
 				}); !ok {
-					v = &verdict{"relays-lost", fmt.Sprintf("a recipient that caught up on a backlog was never relayed the pose update of entity %d, made by another member meanwhile", eid)}
+					v = &verdict{"relays-lost", fmt.Sprintf("a recipient that caught up on a backlog was never relayed the pose update of entity %d, made by another member meanwhile", movable)}
 				}
 			}
 		case <-time.After(patience):
